@@ -16,8 +16,9 @@ import (
 var c09Specs = []famSpec{
 	{Family: "open-dense", Pool: 100000, PoolQ: 8000},
 	{Family: "open-lattice", Pool: 60000, PoolQ: 6000},
-	{Family: "open-wide", FreshQ: 5000, FreshT: 250000},
-	{Family: "open-nested", FreshQ: 3000, FreshT: 120000},
+	{Family: "open-wide-snap", Pool: 60000, PoolQ: 3000},
+	{Family: "open-wide", Pool: 100000, PoolQ: 5000},
+	{Family: "open-nested", FreshQ: 4000, FreshT: 200000},
 }
 
 func init() {
@@ -50,7 +51,7 @@ func openInput(id run.CaseID) openCase {
 		var sc int64
 		oc.Subject, oc.Clip, sc = gen.Lattice(r)
 		R = 9 * sc
-	case "open-wide":
+	case "open-wide", "open-wide-snap":
 		oc.Subject, oc.Clip, R = gen.RandWide(r)
 	default:
 		Rf := gen.PickOf(r, 60.0, 500.0, 20000.0, 3.0e6)
@@ -64,7 +65,11 @@ func openInput(id run.CaseID) openCase {
 	if r.Chance(0.5) {
 		oc.Subject = nil
 	}
-	oc.Open = gen.Polylines(r, 1+r.Intn(3), R+R/4, append(gen.Clone(oc.Clip), oc.Subject...))
+	snap := append(gen.Clone(oc.Clip), oc.Subject...)
+	if id.Family == "open-wide" || id.Family == "open-nested" {
+		snap = nil // open paths that start/bend exactly on a closed-path vertex live in the pool families (open-wide-snap)
+	}
+	oc.Open = gen.Polylines(r, 1+r.Intn(3), R+R/4, snap)
 	if id.Family == "open-wide" || id.Family == "open-nested" {
 		// fresh families: no horizontal run that doubles back on itself (a collinear 180-degree spike on one scanline);
 		// those live in the closed pools, where the engine's handling of them is a listed finding
